@@ -3,7 +3,8 @@
      typing    every handle's representation matches its storage (class, liveness, control-block shape, window inside);
      counting  a storage's reference count is the number of handles holding it; a storage without control block has one holder;
                a dead storage has none (so: freed exactly once, after the last handle);
-     disjoint  the non-empty windows [ofs, ofs+cap) of shared BytesMut handles on one storage are pairwise disjoint;
+     disjoint  the non-empty window [ofs, ofs+cap) of a shared BytesMut is disjoint from the window of every other BytesMut and from the
+               view of every frozen Bytes on the same buffer;
      fresh     identifiers below the counters.
    WF s := LWF (hs s) s.  Definitions and the map-level lemmas; the per-function lemmas are in HeapWFPrim.v / HeapWFOps.v. *)
 From stdpp Require Import gmap.
@@ -145,9 +146,17 @@ Definition st_ok (om : gmap positive owner) (k : positive) (st : storage) (n : n
   end.
 
 Definition mwin (x : handle) : option (positive * N * N) := match x with HM k ofs _ cap MArc => Some (k, ofs, cap) | _ => None end.
+(* the region a handle may READ on a buffer shared with BytesMut handles: a BytesMut's window, a frozen Bytes' view *)
+Definition rwin (x : handle) : option (positive * N * N) :=
+  match x with HM k ofs _ cap MArc => Some (k, ofs, cap) | HB (Some k) ofs len VSharedV _ => Some (k, ofs, len) | _ => None end.
+(* a shared BytesMut's (non-empty) window is disjoint from the window / view of every other handle on the buffer *)
 Definition disj (HM : hmap) : Prop :=
   forall h1 h2 x1 x2 k o1 c1 o2 c2, h1 <> h2 -> HM !! h1 = Some x1 -> HM !! h2 = Some x2 ->
-    mwin x1 = Some (k, o1, c1) -> mwin x2 = Some (k, o2, c2) -> c1 = 0 \/ c2 = 0 \/ o1 + c1 <= o2 \/ o2 + c2 <= o1.
+    mwin x1 = Some (k, o1, c1) -> rwin x2 = Some (k, o2, c2) -> c1 = 0 \/ c2 = 0 \/ o1 + c1 <= o2 \/ o2 + c2 <= o1.
+Lemma mwin_rwin x w : mwin x = Some w -> rwin x = Some w.
+Proof. destruct x as [| ? ? ? ? []|]; simpl; done. Qed.
+Lemma rwin_none_mwin x : rwin x = None -> mwin x = None.
+Proof. destruct x as [[?|] ? ? [] ?| ? ? ? ? []|]; simpl; done. Qed.
 
 Definition sfresh (s : hst) : Prop :=
   (forall p, is_Some (sts s !! xO p) -> (p < next_real s)%positive) /\ (forall p, is_Some (sts s !! xI p) -> (p < next_pseudo s)%positive) /\
